@@ -217,6 +217,27 @@ pub fn generate(ctx: &mut Ctx) {
             _ => gen::reference(&mut rng, oa),
         };
         let mut ops: Vec<String> = Vec::new();
+        // now and then the first edits write a respelling of the CURRENT user info / host / path / query / fragment
+        if rng.chance(1, 3) {
+            if let Some(a) = &p.authority {
+                let sa = crate::model::split_authority(a.as_bytes());
+                if let (Some(u), true) = (sa.user_info, rng.chance(1, 2)) {
+                    ops.push(format!("ui:{}", gen::respell_component(&mut rng, std::str::from_utf8(u).unwrap_or(""), false)));
+                }
+                if !sa.host.starts_with(b"[") {
+                    ops.push(format!("host:{}", gen::respell_component(&mut rng, std::str::from_utf8(sa.host).unwrap_or(""), false)));
+                }
+            }
+            if let (Some(q), true) = (&p.query, rng.chance(1, 2)) {
+                ops.push(format!("query:{}", gen::respell_component(&mut rng, q, false)));
+            }
+            if let (Some(fr), true) = (&p.fragment, rng.chance(1, 2)) {
+                ops.push(format!("frag:{}", gen::respell_component(&mut rng, fr, false)));
+            }
+            if rng.chance(1, 3) {
+                ops.push(format!("path:{}", gen::respell_path(&mut rng, &p.path)));
+            }
+        }
         for _ in 0..rng.below(6) {
             ops.push(rng.pick(OPS).to_string());
         }
